@@ -25,11 +25,30 @@ Theorem C16_stack : forall (newcap : nat -> nat) ops,
 Proof. exact stack_lifo. Qed.
 Print Assumptions C16_stack.
 
-(* The nil *Stack guards of Peek and Pop. *)
-Theorem C16_stack_nil_receiver :
-  stack_Peek None = Ok (0%Z, false) /\ stack_Pop None = Ok (0%Z, false, None).
-Proof. exact stack_nil_receiver. Qed.
-Print Assumptions C16_stack_nil_receiver.
+(* FIFO under EVERY interleaving, stated without reference to the specification: the values
+   returned by the successful Dequeues of a history ([deq_vals]) are, in order, a prefix of
+   the values given to Enqueue ([enq_vals]); so the k-th successful Dequeue returns the k-th
+   enqueued value. *)
+Theorem C16_queue_order : forall ops,
+  exists rest, enq_vals ops = deq_vals ops (fst (qrun ops)) ++ rest.
+Proof. exact queue_order. Qed.
+Print Assumptions C16_queue_order.
+
+Theorem C16_queue_kth : forall ops k v,
+  nth_error (deq_vals ops (fst (qrun ops))) k = Some v -> nth_error (enq_vals ops) k = Some v.
+Proof. exact queue_kth. Qed.
+Print Assumptions C16_queue_kth.
+
+(* Peek returns exactly what the next Dequeue / Pop returns (also (0,false) on empty), after any history. *)
+Theorem C16_queue_peek_agrees : forall ops,
+  exists o, fst (qrun (ops ++ [QPeek; QDequeue])) = fst (qrun ops) ++ [o; o].
+Proof. exact queue_peek_dequeue. Qed.
+Print Assumptions C16_queue_peek_agrees.
+
+Theorem C16_stack_peek_agrees : forall (newcap : nat -> nat) ops,
+  exists o, fst (srun newcap (ops ++ [SPeek; SPop])) = fst (srun newcap ops) ++ [o; o].
+Proof. exact stack_peek_pop. Qed.
+Print Assumptions C16_stack_peek_agrees.
 
 (* The specifications are FIFO / LIFO: what a run of n insertions followed by n
    removals returns. *)
@@ -46,5 +65,10 @@ Example C16_example :
   fst (qrun [QEnqueue 1; QEnqueue 2; QPeek; QDequeue; QDequeue; QDequeue; QLen; QEnqueue 3; QDequeue])%Z =
     [QUnit; QUnit; QVal 1 true; QVal 1 true; QVal 2 true; QVal 0 false; QInt 0; QUnit; QVal 3 true]%Z /\
   fst (srun (fun n => n) [SPush 1; SPush 2; SPeek; SPop; SPop; SPop; SLen; SPush 3; SPop])%Z =
-    [QUnit; QUnit; QVal 2 true; QVal 2 true; QVal 1 true; QVal 0 false; QInt 0; QUnit; QVal 3 true]%Z.
-Proof. vm_compute. split; reflexivity. Qed.
+    [QUnit; QUnit; QVal 2 true; QVal 2 true; QVal 1 true; QVal 0 false; QInt 0; QUnit; QVal 3 true]%Z /\
+  (let ops := [QEnqueue 5; QDequeue; QDequeue; QEnqueue 6; QEnqueue 7; QPeek; QDequeue]%Z in
+   enq_vals ops = [5; 6; 7]%Z /\ deq_vals ops (fst (qrun ops)) = [5; 6]%Z) /\
+  (* not a theorem, a model evaluation: the nil *Stack guards of Peek and Pop (a nil receiver is outside
+     the property; the harness compares these calls with the real code) *)
+  stack_Peek None = Ok (0%Z, false) /\ stack_Pop None = Ok (0%Z, false, None).
+Proof. vm_compute. repeat split. Qed.
